@@ -19,7 +19,7 @@ import z3
 from pyvc import models, ops, source, spec as S
 from pyvc.contract import Contract, register, loop
 from pyvc.engine import LoopSpec, SymRaise
-from pyvc.values import (SArr, SCell, SExc, SObj, SSeq, Undecided, const_of, to_real, to_z3)
+from pyvc.values import (is_num, SArr, SCell, SExc, SObj, SSeq, Undecided, const_of, to_real, to_z3)
 
 from .common import fnum, make_droplet, sym_droplet
 
@@ -961,6 +961,14 @@ class Volume3D(Property2D):
     def post(self, a, ret, case):
         me = a["self"]
         reds = _reductions(self.run, "dblquad")
+        if len(reds) == 0 and is_num(ret):
+            # no integration: acceptable exactly for an unperturbed droplet (all amplitudes zero), whose body is the sphere
+            amps = me.fields["data"].get("amplitudes")
+            j = z3.Int("vj")
+            R = radius_of(me)
+            return [("the volume is returned without integration only for a droplet whose amplitudes ALL vanish, and then it is the sphere volume",
+                     z3.And(z3.ForAll([j], z3.Implies(z3.And(j >= 0, j < to_z3(amps.length)), to_real(amps.at(j)) == 0)),
+                            to_real(ret) * 3 == 4 * ops.PI() * R * R * R))]
         if len(reds) != 1:
             return [("exactly one double integral is formed", False)]
         r = reds[0]
@@ -1001,6 +1009,12 @@ class Volume3D(Property2D):
             if inp["modes"] > 8:
                 inp["modes"] = 8
             yield inp
+        # special amplitude vectors: modes that cancel exactly in their sum, a single non-zero mode, all equal
+        for amps in ([0, 0, 0, 0.2, 0, -0.2, 0, 0], [0.125, -0.25, 0, 0.25, 0, -0.125, 0, 0], [0, 0, 0.25], [0.1, 0.1, 0.1]):
+            out = dict(modes=len(amps), radius=1.5, ang0=0.3, ang1=1.1, pos0=0.0, pos1=0.0, pos2=0.0)
+            for j, a_ in enumerate(amps):
+                out[f"amp{j}"] = float(a_)
+            yield out
 
 
 # ---------------------------------------------------------------------------
